@@ -409,3 +409,102 @@ func ConstBool(v ssa.Value) (bool, bool) {
 func TypeString(t types.Type) string {
 	return types.TypeString(t, func(p *types.Package) string { return p.Path() })
 }
+
+// HelperRet is one non-error return of a helper function, seen from a call of it.
+type HelperRet struct {
+	Call   *ssa.Call
+	Callee *ssa.Function
+	Ret    *ssa.Return
+	Val    ssa.Value // the returned value for the result index asked for
+}
+
+// HelperReturns: v is the result (or one extracted result) of a static call of a function with a body;
+// it returns, for every return of that function that does not definitely return an error, the value
+// returned at v's result index. accept decides which callees are looked into.
+func HelperReturns(v ssa.Value, accept func(*ssa.Function) bool) []HelperRet {
+	v = Strip(v)
+	idx := 0
+	var call *ssa.Call
+	switch x := v.(type) {
+	case *ssa.Extract:
+		c, ok := x.Tuple.(*ssa.Call)
+		if !ok {
+			return nil
+		}
+		call, idx = c, x.Index
+	case *ssa.Call:
+		call = x
+	default:
+		return nil
+	}
+	h := call.Call.StaticCallee()
+	if h == nil || len(h.Blocks) == 0 || (accept != nil && !accept(h)) {
+		return nil
+	}
+	res := h.Signature.Results()
+	if idx >= res.Len() {
+		return nil
+	}
+	errIdx := -1
+	if res.Len() > 0 && IsErrorType(res.At(res.Len()-1).Type()) {
+		errIdx = res.Len() - 1
+	}
+	var out []HelperRet
+	for _, b := range h.Blocks {
+		if len(b.Instrs) == 0 {
+			continue
+		}
+		ret, ok := b.Instrs[len(b.Instrs)-1].(*ssa.Return)
+		if !ok || len(ret.Results) != res.Len() {
+			continue
+		}
+		if errIdx >= 0 && errIdx != idx && (DefiniteError(ret.Results[errIdx]) || ReturnNonNilGuarded(ret, ret.Results[errIdx])) {
+			continue
+		}
+		out = append(out, HelperRet{Call: call, Callee: h, Ret: ret, Val: ret.Results[idx]})
+	}
+	return out
+}
+
+// DefiniteError: the value is certainly a non-nil error (a fresh error, a package-level error variable, a
+// joined/wrapped one of those, or an error tested non-nil on every edge guarding its use is not covered).
+func DefiniteError(v ssa.Value) bool {
+	return definiteError(v, 0)
+}
+
+func definiteError(v ssa.Value, d int) bool {
+	if v == nil || d > 5 {
+		return false
+	}
+	switch x := Strip(v).(type) {
+	case *ssa.Call:
+		if IsFunc(x, "fmt", "Errorf") || IsFunc(x, "errors", "New") {
+			return true
+		}
+	case *ssa.UnOp:
+		if g, ok := x.X.(*ssa.Global); ok && IsErrorType(Deref(g.Type())) {
+			return true
+		}
+	case *ssa.MakeInterface:
+		return definiteError(x.X, d+1)
+	case *ssa.Phi:
+		for _, e := range x.Edges {
+			if !definiteError(e, d+1) {
+				return false
+			}
+		}
+		return len(x.Edges) > 0
+	}
+	return false
+}
+
+// ReturnNonNilGuarded: the error value returned is known non-nil at the return because the return's block is
+// guarded by the non-nil edge of a nil test of that very value.
+func ReturnNonNilGuarded(ret *ssa.Return, errv ssa.Value) bool {
+	for _, g := range GuardingEdges(ret.Block()) {
+		if x, nilSucc, ok := NilTest(g.If()); ok && g.Succ != nilSucc && (x == errv || Origin(x) == Origin(errv)) {
+			return true
+		}
+	}
+	return false
+}
